@@ -82,4 +82,4 @@ Proof. split; vm_compute; reflexivity. Qed.
 (** truthiness: the compiled `if` takes the else branch exactly for nil and false *)
 Theorem truthiness v a b :
   run (EIf (EConst v) (EConst a) (EConst b)) = Some (if falsey v then b else a, []).
-Proof. destruct v as [| [|] | z | l]; vm_compute; reflexivity. Qed.
+Proof. destruct v as [| [|] | z | l | c p]; vm_compute; reflexivity. Qed.
